@@ -2,12 +2,14 @@
    Models (model/TridiagEig.v): TridiagEigen::compute with tridiagonal_qr_step, Eigen's makeGivens /
    hypot / applyOnTheRight - tied to TridiagEigen<double> bit for bit (eigenvalues, eigenvectors, or the
    exception); the eigenvalue extraction and scaling of UpperHessenbergEigen - tied bit for bit on the
-   Schur factor produced by the implementation.  UpperHessenbergSchur and the eigenvector
-   back-substitution are not modelled: the identities of the property are evaluated on the
-   implementation (lib/p_C09.py).  The n*eps bounds are floating-point statements, not theorems. *)
-From SV Require Import Ops LinAlg TridiagEig.
+   Schur factor produced by the implementation; model/Schur.v: UpperHessenbergSchur::compute complete
+   (norm, deflation scan, 2x2 splitting, ordinary and both exceptional shifts, Francis sweep with Eigen's
+   makeHouseholder / makeGivens and the scalar reflector kernels) - tied to UpperHessenbergSchur<double> bit
+   for bit (T, U, or the exception).  The eigenvector back-substitution is not modelled: the identities
+   of the property are evaluated on the implementation (lib/p_C09.py).  The n*eps bounds are floating-point statements, not theorems. *)
+From SV Require Import Ops LinAlg TridiagEig Schur.
 From mathcomp Require Import all_ssreflect all_algebra.
-From SV Require Import OpsF TEigPf.
+From SV Require Import OpsF TEigPf SchurPf.
 Set Implicit Arguments. Unset Strict Implicit. Unset Printing Implicit Defensive.
 Import GRing.Theory Num.Theory.
 Local Open Scope ring_scope.
@@ -55,6 +57,35 @@ Theorem C09_value_conventions : forall (F : rcfType) (n : nat) (Tm : mat (OpsF F
 Proof. move=> F n Tm scale; exact: he_eigenvalues_conv. Qed.
 Print Assumptions C09_value_conventions.
 
+(* UpperHessenbergSchur: Eigen's makeHouseholder is exact for EVERY (c0, x1, x2) and every threshold min >= 0: the reflector
+   I - tau w w^T, w = (1, v1, v2), is orthogonal (tau (2 - tau |w|^2) = 0); if the tail is not negligible it maps (c0, x1, x2) to
+   (beta, 0, 0) with beta^2 = c0^2 + x1^2 + x2^2 - which is what the model then stores at T(k, k-1) and what the clean-up loop
+   zeroes; otherwise it is the identity and beta = c0 *)
+Theorem C09_householder_exact : forall (F : rcfType) (min_ c0 x1 x2 : F), 0 <= min_ ->
+  let '(v1, v2, tau, beta) := make_householder (OpsF F) min_ c0 x1 x2 in
+  hh3_cond tau v1 v2 /\
+  (if x1 * x1 + x2 * x2 <= min_ then tau = 0 /\ beta = c0
+   else hh3 tau v1 v2 (c0, x1, x2) = (beta, 0, 0) /\ beta ^+ 2 = c0 ^+ 2 + x1 ^+ 2 + x2 ^+ 2).
+Proof. move=> F min_ c0 x1 x2 m0; exact: make_householder_spec. Qed.
+Print Assumptions C09_householder_exact.
+
+(* the 3-vector map both reflector kernels (apply_householder_left on columns, apply_householder_right on rows) compute is an
+   isometry and an involution whenever the orthogonality condition holds: every Francis step is an orthogonal similarity on the
+   entries it touches *)
+Theorem C09_reflector_kernel_isometry : forall (F : rcfType) (tau v1 v2 : F) (x y : F * F * F), hh3_cond tau v1 v2 ->
+  dot3 (hh3 tau v1 v2 x) (hh3 tau v1 v2 y) = dot3 x y /\ hh3 tau v1 v2 (hh3 tau v1 v2 x) = x.
+Proof. by move=> F tau v1 v2 x y hc; split; [exact: hh3_dot | exact: hh3_invol]. Qed.
+Print Assumptions C09_reflector_kernel_isometry.
+
+(* the WHOLE iteration, for every n, every input matrix (Hessenberg or not), every eps and every min >= 0: whenever the model of
+   UpperHessenbergSchur::compute returns (instead of signalling the iteration limit, where the C++ throws), the accumulated U has
+   the n x n shape and U U^T = I exactly - whatever shifts, deflations and exceptional shifts were taken *)
+Theorem C09_schur_U_orthogonal : forall (F : rcfType) (eps min_ : F) (n : nat) (M Tm U : mat (OpsF F)), 0 <= min_ ->
+  sc_compute (OpsF F) eps min_ n M = Some (Tm, U) ->
+  wfm n U /\ forall i j, (i < n)%N -> (j < n)%N -> \sum_(c < n) mget (OpsF F) U i c * mget (OpsF F) U j c = (i == j)%:R.
+Proof. move=> F eps min_ n M Tm U m0 h; exact: (sc_compute_U_orthogonal m0 h). Qed.
+Print Assumptions C09_schur_U_orthogonal.
+
 (* non-vacuity: a 2x2 rotation block yields one conjugate pair, a diagonal matrix yields real values *)
 Example C09_nonvacuous : forall F : rcfType,
   he_values (OpsF F) 2 2 0 [:: [:: 0; 1]; [:: -1; 0]] = [:: (0, 1); (0, -1)].
@@ -62,4 +93,12 @@ Proof.
 move=> F; rewrite /he_values /mget /mcol /vnth /max_ /half /= /F_of_lit /=.
 rewrite oner_eq0 /= subrr mulr0 normr0 normr1 normrN1 Order.POrderTheory.ltxx /= ltr01 /=; do 4! rewrite ?(divr1, invr1, mulr0, mul0r, add0r, mul1r, mulr1, normrN1, sqrtr1, addr0).
 by [].
+Qed.
+
+(* non-vacuity of C09_schur_U_orthogonal: the model returns on a concrete input in every real closed field *)
+Example C09_schur_nonvacuous : forall (F : rcfType) (eps min_ : F),
+  sc_compute (OpsF F) eps min_ 1 [:: [:: 1]] = Some ([:: [:: 1]], [:: [:: 1]]).
+Proof.
+move=> F eps min_; rewrite /sc_compute /l1_norm /= /abs_sum /= add0r normr1 oner_eq0 /=.
+by rewrite /mget /mcol /vnth /mset /mapi /= addr0.
 Qed.
